@@ -196,37 +196,7 @@ def threshold_domains(m):
 AMBIENT = ("decimal-context", "debug-logging")
 
 
-class ambient:
-    """Process-wide settings an application is free to choose; the ticks of a scale must not depend on them."""
-    def __init__(self, kind):
-        self.kind = kind
-
-    def __enter__(self):
-        import decimal
-        import logging
-        if self.kind == "decimal-context":
-            self.saved = decimal.getcontext()
-            decimal.setcontext(decimal.Context(prec=4, rounding=decimal.ROUND_DOWN))
-        elif self.kind == "debug-logging":
-            root = logging.getLogger()
-            self.saved = (root.level, logging.root.manager.disable)
-            self.handler = logging.NullHandler()
-            root.addHandler(self.handler)
-            root.setLevel(logging.DEBUG)
-            logging.disable(logging.NOTSET)
-        return self
-
-    def __exit__(self, *exc):
-        import decimal
-        import logging
-        if self.kind == "decimal-context":
-            decimal.setcontext(self.saved)
-        elif self.kind == "debug-logging":
-            root = logging.getLogger()
-            root.removeHandler(self.handler)
-            root.setLevel(self.saved[0])
-            logging.disable(self.saved[1])
-        return False
+from mc.ambient import setting as ambient  # noqa: E402
 
 
 def plan(tier, seed):
